@@ -96,13 +96,22 @@ FRESH_PROGS.update({
     "h": ("CREATE REMOTE SCHEMA rs1;\nCREATE TRANSIENT SCHEMA tr1;\nCREATE TABLE rs1.t_h (a int); -- ch\nCREATE INDEX ix_h ON elsewhere (a);\n", {}, {"output_mode": "sql"}),
     "i": ("CREATE REMOTE SCHEMA rs2;\nCREATE TRANSIENT SCHEMA tr2;\nCREATE EXTERNAL SCHEMA ex2;\nCREATE TABLE t_i (a int); -- ci\nCREATE INDEX ix_i ON elsewhere (a);\n", {}, {"output_mode": "sql"}),
 })
+FRESH_PROGS.update({
+    # the logging level of the FIRST object of a process configures the root logger: nothing another object returns may depend on it
+    "j": ("CREATE TABLE t_j (a int); -- cj\n", {"log_level": 10}, {"output_mode": "sql"}),
+    "k": ("CREATE TABLE sessions (id int);\nBEGIN CREATE TABLE orders (id int);\nIF NOT EXISTS (SELECT 1) CREATE TABLE users (id int);\nCREATE TABLE last_k (z int); -- ck\n",
+          {}, {"output_mode": "sql"}),
+})
+KIND_DDL = ("CREATE EXTERNAL TABLE x1 (a int) LOCATION 's3://b/x';\nCREATE TEMPORARY TABLE x2 (a int);\nCREATE TRANSIENT TABLE x3 (a int);\n"
+            "CREATE OR REPLACE TABLE x4 (a int) CLUSTER BY (a);\n")
+PLAIN_DDL = "CREATE TABLE y1 (a int, b varchar(5));\nCREATE TABLE s1.y2 (c int);\nCREATE SEQUENCE sq_y START 1;\n"
 MODE_DDL = ("CREATE EXTERNAL TABLE s1.t_m (a int NOT NULL, b varchar(5), c int ENCODE zstd) PARTITIONED BY (dt string) CLUSTERED BY (a) INTO 4 BUCKETS "
             "ROW FORMAT DELIMITED FIELDS TERMINATED BY ',' ESCAPED BY '#' STORED AS TEXTFILE LOCATION 's3://b/m' TBLPROPERTIES ('k'='v'); -- cm\n"
             "CREATE TABLE t_n (a int, b int) ENGINE=InnoDB TABLESPACE ts1;\nCREATE SEQUENCE sq_m START 2;\nALTER TABLE t_n ADD FOREIGN KEY (a) REFERENCES s1.t_m (a);\n")
 FRESH_SRC = r'''
 import sys, json
 sys.path.insert(0, %r)
-import logging; logging.disable(logging.CRITICAL)
+import logging  # (logging is left as the library configures it: the root level set by the first object must not matter)
 from simple_ddl_parser import DDLParser
 job = json.load(sys.stdin)
 objs, out = {}, {}
@@ -154,6 +163,12 @@ def fresh_histories(V, behs, rnd, n):
     return len(hs)
 
 
+def _same_mode_pair(m):
+    """tables of special kinds formatted in mode m, then plain tables formatted in the SAME mode by another object"""
+    progs = {"x": (KIND_DDL, {}, {"output_mode": m}), "y": (PLAIN_DDL, {}, {"output_mode": m})}
+    return _fresh_task([["construct", "x"], ["run", "x"], ["construct", "y"], ["run", "y"]], progs), _fresh_task([["construct", "y"], ["run", "y"]], progs)
+
+
 def _mode_pair(t):
     m1, m2 = t
     progs = {"x": (MODE_DDL, {}, {"output_mode": m1}), "y": (MODE_DDL.replace("t_m", "t_y"), {}, {"output_mode": m2})}
@@ -196,7 +211,13 @@ def pair_histories(V, rnd, thorough):
         if out["y"] != msolo[m2]["y"]:
             V.mismatch({"kind": "fresh-interpreter mode pair", "history": [f"run(output_mode={m1})", f"run(output_mode={m2}) of another object"], "script": MODE_DDL,
                         "expected_solo": _short(msolo[m2]["y"][0]), "observed": _short(out["y"][0])})
-    return len(hs), len(pairs)
+    for m_, (both, alone) in zip(modes, C.pool().map(_same_mode_pair, modes, 1)):
+        if "error" in both or "error" in alone:
+            raise C.MachineryError("same-mode history failed: " + str(both.get("error") or alone.get("error")))
+        if both["y"] != alone["y"]:
+            V.mismatch({"kind": "fresh-interpreter same-mode pair", "history": [f"run(output_mode={m_}) on EXTERNAL / TEMPORARY / TRANSIENT tables", f"run(output_mode={m_}) of another object on plain tables"],
+                        "script": PLAIN_DDL, "expected_solo": _short(alone["y"][0]), "observed": _short(both["y"][0])})
+    return len(hs), len(pairs) + len(modes)
 
 
 def run(tier, seed):
